@@ -1197,7 +1197,7 @@ Proof.
 Qed.
 
 (* ---------------------------------------------------------------------- *)
-(* the current tree: refuted by one animal seen in three frames *)
+(* the PINNED (historic) tree, all F4 switches off: refuted by one animal seen in three frames *)
 
 Definition wit10_one_animal : list frame :=
   [ ([(7, true)], [], AFail);
